@@ -156,6 +156,23 @@ def check(case):
                                             f"(reduced units), start centres displaced per '{mode}' by {case['disp']}"))
     grows = len(second["Ham"]) > len(first["Ham"])
 
+    # --- a model symmetric under the whole group is symmetric under every subgroup: symmetrising it with the
+    #     documented `use_symmetries_index` option restricted to the proper, unitary operations changes nothing
+    if symmetrizer is not None and mode != "wf":
+        syms = symmetrizer.spacegroup.symmetries
+        sub = [i for i, g in enumerate(syms)
+               if np.linalg.det(np.asarray(g.rotation, dtype=float)) > 0 and not getattr(g, "time_reversal", False)]
+        if 0 < len(sub) < len(syms):
+            system.symmetrize2(symmetrizer, use_symmetries_index=sub)
+            third = symlib.matrices_by_R(system)
+            for key in sorted(second):
+                sc = max(float(np.max(np.abs(X))) for X in second[key].values())
+                d = symlib.max_diff_by_R(second[key], third.get(key, {}))
+                if d > 1e-10 * (1 + sc):
+                    found.append((f"idempotent-subgroup:{key}", f"{symlib.label(s)}: symmetrising the symmetric model with "
+                                                                f"the subgroup of {len(sub)} proper operations (of {len(syms)}) "
+                                                                f"changes {key} by {d:.3e}"))
+
     # violations of the centre-dependent clauses in the 'independent displacement per Wannier function' mode get their own
     # bucket names: one root cause (see KNOWN_FINDINGS.txt once listed) must not hide other violations
     named = [((c + "|independent-centres") if (mode == "wf" and c in CENTRE_CLAUSES) else c, d) for c, d in found]
